@@ -39,6 +39,11 @@ def run_C04(ctx):
     if ctx.tier == "thorough":
         # the same stimuli through the handler implementing the interior-mutability trait directly
         cases = cases + [dict(c, adapter="direct") for c in cases[::3]]
+    # messages of exactly the maximum size (4096 bytes after the header), answered and followed by another request
+    for nr in (False, True):
+        for h in ("ok", "fail"):
+            cases.append(dict(dev=dict(vf=[30], pf=[]), steps=SRV_PREFIX + [dict(c=24, nr=nr, h=h, v=[], var="max"), dict(c=1, nr=False, h="ok", v=[], var="valid"),
+                                                                         dict(c=25, nr=nr, h=h, v=[], var="max"), dict(c=1, nr=False, h="ok", v=[], var="valid")]))
     cases = replay_or(ctx, "server", cases)
     tr = ctx.harness("server", cases, crash_is_data=True)
     viol = ctx.tlc_tv("TV_BackendServer", tr, "server")
@@ -746,6 +751,10 @@ def run_C09(ctx):
 # C10: request/answer atomicity under concurrency
 def run_C10(ctx):
     import glob
+    if ctx.replay is not None and ctx.replay["engine"] in ("gpu", "client", "bereq"):
+        eng = ctx.replay["engine"]
+        viol = gpu_run(ctx, hostile=True) if eng == "gpu" else client_run(ctx, True) if eng == "client" else bereq_run(ctx, hostile=True, functional=False)
+        return ctx.finish("model_checking", "replay of a hostile-answer stimulus (self-deadlock on an error path)", ASSUME_COMMON, viol)
     ns = (2,) if ctx.tier == "quick" else (2, 3)
     cases = []
     for cfgp in sorted(glob.glob(os.path.join(ROOT, "spec", "mc", "MC_Txn_*.cfg"))):
@@ -776,6 +785,10 @@ def run_C10(ctx):
     cases = replay_or(ctx, "txn", cases)
     tr = ctx.harness("txn", cases, shards=8)
     viol = ctx.tlc_tv("TV_Txn", tr, "txn", chunk_events=8000)
+    if ctx.replay is None:
+        # "all calls complete (no self-deadlock)" also on the error paths: the hostile-answer stimuli of C06 are run again; a call
+        # that does not return even after its connection has been shut down is reported here
+        viol += gpu_run(ctx, hostile=True) + client_run(ctx, want_mutations=True) + bereq_run(ctx, hostile=True, functional=False)
     seen = set()
     cur = None
     for line in open(tr):
@@ -969,12 +982,14 @@ def mem_pool(rnd):
     return pool, G
 
 
-def mem_letter(a):
+def mem_letter(a, k=0):
     if a["op"] == "set_mem_table":
         return dict(op="set_mem_table", rids=a["rids"], badfd=a["bad"])
     if a["op"] == "add_mem_reg":
         return dict(op="add_mem_reg", rid=a["rid"], badfd=a["bad"])
-    return dict(op="rem_mem_reg", rid=a["rid"], size_delta=a["delta"], badfd=False)
+    # the region to remove is identified by its guest range; in half of the letters the descriptor's user address is not
+    # the one the region was added with (a frontend that fills in guest address and size only)
+    return dict(op="rem_mem_reg", rid=a["rid"], size_delta=a["delta"], badfd=False, ua_zero=(k + a["rid"]) % 2 == 1)
 
 
 def mem_probes(pool, G, xl_rid):
@@ -1010,7 +1025,7 @@ def run_C13(ctx):
     cases = []
     for i, c in enumerate(trans):
         pool, G = mem_pool(rnd)
-        letters = [mem_letter(a) for a in c["steps"]]
+        letters = [mem_letter(a, i + j) for j, a in enumerate(c["steps"])]
         steps = [MEM_NEG]
         for j, lt in enumerate(letters):
             steps.append(lt)
@@ -1032,7 +1047,7 @@ def run_C13(ctx):
         hist = random.Random(ctx.seed).sample(hist, min(len(hist), 40000))
     for i, c in enumerate(hist):
         pool, G = mem_pool(rnd)
-        letters = [mem_letter(a) for a in c["steps"]]
+        letters = [mem_letter(a, i + j) for j, a in enumerate(c["steps"])]
         touched = sorted({r for lt in letters for r in (lt.get("rids") or [lt.get("rid")])})
         for k, xl in enumerate(touched):
             st = [MEM_NEG] + letters + (mem_probes(pool, G, xl) if k == 0 else mem_probes(pool, G, xl)[-1:])
@@ -1069,6 +1084,11 @@ def ring_letter(a, cur_rid=0):
         d = dict(op=op, rids=[a["n"]], badfd=False)
     elif op == "set_vring_addr":
         d.update(rid=cur_rid, odesc=limbs(0x100 + 0x100 * qq), oavail=limbs(0x300 + 0xa00 * qq), oused=limbs(0x400 + 0xc00 * qq), used_idx=a["usedIdx"])
+        if a.get("n") == 1:
+            # pool regions 0 and 4 are two pages long: the first user address past the region
+            d.update(odesc=limbs(0x2000), n=limbs(1))
+        else:
+            d["n"] = limbs(0)
     elif op == "set_features":
         d["bits"] = a["bits"]
     elif op == "set_protocol_features":
